@@ -678,7 +678,7 @@ def arc3 (a : Agent) (c : Cand) : Agent :=
   { (arcLoop a c).1 with remotes := (arcLoop a c).1.remotes.filter fun (e : Cand) => !((arcReplaced a c).any fun (x : Cand) => x.uid == e.uid) }
 
 def arc4 (a : Agent) (c : Cand) : Agent :=
-  ((arc3 a c).locals.filter fun (x : Cand) => x.net == (arcC a c).net).foldl (fun (a' : Agent) (l : Cand) =>
+  ((arc3 a c).locals.filter fun (x : Cand) => x.net == (arcC a c).net && (arcC a c).tt != 2).foldl (fun (a' : Agent) (l : Cand) =>
     match a'.findPair l (arcC a c) with
     | some _ => a'
     | none => (a'.addPair l (arcC a c)).1) (arc3 a c)
@@ -728,7 +728,7 @@ theorem mem_arcReplaced {a : Agent} {c old : Cand} (h : old ∈ arcReplaced a c)
     refine ⟨this.1, ?_⟩
     have h2 := this.2
     simp [Cand.taEqual, arcC1] at h2
-    exact h2.2.2
+    exact h2.2.1.2
 
 theorem arcLoop_post {a : Agent} {L : Log} (h : AInv Good Sane SaneR tag lite (view a) L) (c : Cand) (hc : SaneR c.addr) :
     Post Good Sane SaneR tag lite R L (arcLoop a c) ∧ Stable (arc2 a c) (arcLoop a c).1 := by
@@ -813,7 +813,7 @@ theorem addRemoteCandidate_post {a : Agent} {L : Log} (h : AInv Good Sane SaneR 
       have hm := List.mem_of_find?_eq_some he
       have he' := List.find?_some he
       simp [Cand.equal, Cand.taEqual] at he'
-      exact ⟨he'.1.1.2, h.uidR _ (mem_remotes_cv (List.mem_filter.mp hm).1)⟩
+      exact ⟨he'.1.1.1.2, h.uidR _ (mem_remotes_cv (List.mem_filter.mp hm).1)⟩
     · have h4 := arc4_inv h c hc
       have hl := arcLoop_post (R := R) h c hc
       refine ⟨⟨h4.1, hl.1.2⟩, ?_, ?_⟩
@@ -861,7 +861,7 @@ theorem findPair_spec {a : Agent} {l r : Cand} {q : Pair} (h : a.findPair l r = 
   split at h2
   · rename_i pl pr hl hr
     simp [Cand.equal, Cand.taEqual] at h2
-    exact ⟨pl, pr, hl, hr, h2.1.1.1.2, h2.2.1.1.2⟩
+    exact ⟨pl, pr, hl, hr, h2.1.1.1.1.2, h2.2.1.1.1.2⟩
   · cases h2
 
 theorem addrOf_locs_of_localOf {a : Agent} {u : Nat} {c : Cand} (h : a.localOf u = some c) :
@@ -1191,7 +1191,7 @@ def hiDisc (a : Agent) (l : Cand) (src : Nat) (m : Msg) : Agent × List Out × O
   | some r => (a, [], some r)
   | none =>
     a.addRemoteCandidate { uid := 0, ty := 3, net := l.net, addr := src, comp := l.comp, rel := some 0,
-                           prio := match m.prio with | some p => if p == 0 then prflxPriority l.comp else p | none => prflxPriority l.comp }
+                           prio := match m.prio with | some p => if p == 0 then prflxPriority l.net l.comp else p | none => prflxPriority l.net l.comp }
 
 def hiAfter (a : Agent) (now : Nat) (l : Cand) (m : Msg) (o0 : List Out) (rc : Option Cand) : Agent × List Out :=
   match rc with
@@ -1471,6 +1471,7 @@ theorem step_addLocal (a : Agent) (now : Nat) (c : Cand) :
 theorem step_addRemote (a : Agent) (now : Nat) (c : Cand) :
     step a (.addRemote now c) =
       if a.closed then (a, [.res "err:closed"]) else
+      if c.tt == 1 then (a, []) else
       (((a.addRemoteCandidate c).1.runForced now).1, (a.addRemoteCandidate c).2.1 ++ ((a.addRemoteCandidate c).1.runForced now).2) := rfl
 
 theorem step_inbound (a : Agent) (now la src : Nat) (m : Msg) :
@@ -1496,7 +1497,9 @@ theorem step_post {a : Agent} {L : Log} (h : AInv Good Sane SaneR tag lite (view
     rw [step_addRemote]
     split
     · exact Post.outs h rfl (by intro x hx; simp at hx; subst hx; trivial)
-    · exact withForced_post (x := ((a.addRemoteCandidate c).1, (a.addRemoteCandidate c).2.1)) (addRemoteCandidate_post h c (haddR now c rfl)).1 now
+    · split
+      · exact Post.outs h rfl (by intro x hx; simp at hx)
+      · exact withForced_post (x := ((a.addRemoteCandidate c).1, (a.addRemoteCandidate c).2.1)) (addRemoteCandidate_post h c (haddR now c rfl)).1 now
   | start now ctl ru rp =>
     simp only [step]
     split
